@@ -205,7 +205,9 @@ func runLive(c LiveCase, o *vt.Obs) *vt.Failure {
 		h.revs = append(h.revs, rev)
 		h.states = append(h.states, m.Clone())
 	}
-	ctxT := func() (context.Context, context.CancelFunc) { return context.WithTimeout(context.Background(), 30*time.Second) }
+	ctxT := func() (context.Context, context.CancelFunc) {
+		return context.WithTimeout(context.Background(), 30*time.Second)
+	}
 	compactions, restarts, txns := 0, 0, 0
 	for i, a := range c.Acts {
 		switch a.Kind {
